@@ -243,7 +243,7 @@ func waitFor(cond func() bool, d time.Duration, conns ...*wire.Conn) bool {
 
 func main() {
 	c := vk.Init("C04")
-	c.Rule("scenario i: 1..200 well-formed messages (any MsgType, 30..70000 bytes incl. single fields of 4000..70000 bytes, values containing '10=', fields 110/210/1010/9910) are concatenated and cut into read chunks by one of 13 strategies (all-in-one, one byte per read, random, message-aligned, coalescing, and a boundary at every offset 0..7 of every message's trailing CheckSum field), with feed timing {none, Gosched, 1 ms pauses}; delivered to (a) an Initiator with a recording handler that asserts one ServeIncoming at a time, (b) an Initiator with DefaultHandler + incoming callbacks, (c) an Acceptor with 1..8 simultaneous connections (arriving one at a time or all back to back before any handler exists) through the real handler factory, each message tagged (connection, counter); buffer sizes {0,1,10}. Outbound: 1..4 goroutines hand unique messages to Send/SendRaw; the peer-side capture is split by the reference splitter. Oracle: per connection delivered == sent (bytes, order, multiplicity), nothing from another connection, outbound stream == hand-off order (order seen by an outgoing ALL-handler under the handler's own lock; per-goroutine order for SendRaw). Long pauses: 3..6 messages whose stream stops for 0.7..1.3 s inside a value, inside the CheckSum tag or value, between fields or between messages (the scripted connection honours read deadlines, should the library set any). Re-sent object: one generated message object handed to Send 3..14 times with changed content against an instantly or slowly reading peer; the stream must carry each hand-off as it was when handed off. Write fault: 2..11 messages handed to SendRaw in order while one write takes only part of its message (cut anywhere, or inside the CheckSum field) and runs into a 30 ms write deadline, later writes being accepted: the captured stream must stay a prefix of the hand-offs. distinct = hash(partition signature, messages); non-trivial = >=2 messages or a boundary inside a CheckSum field")
+	c.Rule("scenario i: 1..200 well-formed messages (any MsgType, 30..70000 bytes incl. single fields of 4000..70000 bytes, values containing '10=', fields 110/210/1010/9910) are concatenated and cut into read chunks by one of 13 strategies (all-in-one, one byte per read, random, message-aligned, coalescing, and a boundary at every offset 0..7 of every message's trailing CheckSum field), with feed timing {none, Gosched, 1 ms pauses}; delivered to (a) an Initiator with a recording handler that asserts one ServeIncoming at a time, (b) an Initiator with DefaultHandler + incoming callbacks, (c) an Acceptor with 1..8 simultaneous connections (arriving one at a time or all back to back before any handler exists) through the real handler factory, each message tagged (connection, counter); buffer sizes {0,1,10}. Outbound: 1..4 goroutines hand unique messages to Send/SendRaw; the peer-side capture is split by the reference splitter. Oracle: per connection delivered == sent (bytes, order, multiplicity), nothing from another connection, outbound stream == hand-off order (order seen by an outgoing ALL-handler under the handler's own lock; per-goroutine order for SendRaw). Replying handlers: 2..10 messages in one read, each answered with SendRaw from inside the incoming handler (buffers 0/1/10, both roles): all delivered, all answers on the wire in order. Long pauses: 3..6 messages whose stream stops for 0.7..1.3 s inside a value, inside the CheckSum tag or value, between fields or between messages (the scripted connection honours read deadlines, should the library set any). Re-sent object: one generated message object handed to Send 3..14 times with changed content against an instantly or slowly reading peer; the stream must carry each hand-off as it was when handed off. Write fault: 2..11 messages handed to SendRaw in order while one write takes only part of its message (cut anywhere, or inside the CheckSum field) and runs into a 30 ms write deadline, later writes being accepted: the captured stream must stay a prefix of the hand-offs. distinct = hash(partition signature, messages); non-trivial = >=2 messages or a boundary inside a CheckSum field")
 	n := c.Pick(3000, 60000)
 	vk.Parallel(n, runtime.NumCPU(), func(i int) {
 		r := c.Rand("c04", int64(i))
@@ -544,6 +544,82 @@ func main() {
 			c.Sample(desc)
 		}
 	})
+	// handlers that answer from inside the incoming callback (as the session layer does) while the peer pipelines
+	// several messages in one read: both directions of a connection must keep moving independently
+	nrep := c.Pick(90, 1800)
+	vk.Parallel(nrep, runtime.NumCPU(), func(i int) {
+		r := c.Rand("c04-replying", int64(i))
+		buf := []int{0, 0, 1, 10}[r.Intn(4)]
+		nmsg := 2 + r.Intn(9)
+		mode := []string{"initiator", "acceptor"}[i%2]
+		var sent, acks [][]byte
+		var stream []byte
+		for k := 0; k < nmsg; k++ {
+			m := randMsg(r, fmt.Sprintf("rq-%d", k))
+			for len(m) > 900 {
+				m = randMsg(r, fmt.Sprintf("rq-%d", k))
+			}
+			sent = append(sent, m)
+			stream = append(stream, m...)
+			acks = append(acks, fixref.Encode(fixref.Std, "FIX.4.4", "ACK", []fixref.Field{fixref.F("58", fmt.Sprintf("ack-%d", k))}))
+		}
+		desc := fmt.Sprintf("replying-handler %s buf=%d: %d messages in one read, each answered from inside the incoming handler", mode, buf, nmsg)
+		replay := map[string]interface{}{"scenario": desc, "index": i, "seed": c.Seed}
+		conn := wire.NewConn("c04rp", false)
+		var mu sync.Mutex
+		var got [][]byte
+		mk := func(send func([]byte) error) func([]byte) bool {
+			return func(m []byte) bool {
+				mu.Lock()
+				k := len(got)
+				got = append(got, append([]byte(nil), m...))
+				mu.Unlock()
+				if k < len(acks) {
+					_ = send(acks[k])
+				}
+				return true
+			}
+		}
+		done := make(chan struct{})
+		var stop func()
+		if mode == "initiator" {
+			h := simplefixgo.NewInitiatorHandler(context.Background(), "35", buf)
+			h.HandleIncoming(simplefixgo.AllMsgTypes, mk(h.SendRaw))
+			ini := simplefixgo.NewInitiator(conn, h, buf, 5*time.Second)
+			go func() { ini.Serve(); close(done) }()
+			stop = func() { ini.Close(); h.Stop() }
+		} else {
+			lst := wire.NewListener()
+			acc := simplefixgo.NewAcceptor(lst, simplefixgo.NewAcceptorHandlerFactory("35", buf), 5*time.Second, func(h simplefixgo.AcceptorHandler) {
+				h.HandleIncoming(simplefixgo.AllMsgTypes, mk(h.SendRaw))
+			})
+			go func() { acc.ListenAndServe(); close(done) }()
+			lst.Connect(conn)
+			stop = func() { acc.Close() }
+		}
+		conn.Feed(stream)
+		wantOut := 0
+		for _, a := range acks {
+			wantOut += len(a)
+		}
+		waitFor(func() bool { return len(conn.Written()) >= wantOut }, 4*time.Second, conn)
+		time.Sleep(2 * time.Millisecond)
+		mu.Lock()
+		g2 := append([][]byte(nil), got...)
+		mu.Unlock()
+		c.Eval(vk.Hash64([]byte(desc), []byte{byte(i), byte(i >> 8)}), true)
+		c.Count("replying_handler_scenarios", 1)
+		compare(c, "inbound/replying-handler/"+mode, sent, g2, replay)
+		wireMsgs, _ := fixref.SplitStream("10", conn.Written())
+		compare(c, "outbound/replying-handler/"+mode, acks, wireMsgs, replay)
+		stop()
+		conn.Close()
+		select {
+		case <-done:
+		case <-time.After(5 * time.Second):
+		}
+	})
+
 	// long pauses of the inbound stream (0.7 .. 1.3 s) at chosen places: inside a value, inside the CheckSum tag or
 	// value, between two fields, between two messages. Read timing must not change what is delivered.
 	ns := c.Pick(32, 400)
